@@ -185,12 +185,16 @@ def run(prop, tier, which):
             V.violation(key, {'case': c, 'observed': obs[eid], 'clause': clause})
         if res['nbad'] > len(res['bad']):
             V.note('%d failing events in total; first %d reported' % (res['nbad'], len(res['bad'])))
+        mech_info = []
+        if prop == 'C12':
+            from .. import mechbind
+            mech_info = mechbind.merge_mech(work, V)
         rc = V.finish(max_print=40)
         from collections import Counter
         srcs = Counter(c['src'].split(':')[0] for c in cases)
         common.write_evidence(prop, tier, 'model_checking', {
-            'states': gstates + res['states'],
-            'transitions': gtrans + res['transitions'],
+            'states': gstates + res['states'] + sum(m.get('distinct_states', 0) for m in mech_info),
+            'transitions': gtrans + res['transitions'] + sum(m.get('distinct_states', 0) for m in mech_info),
             'traces_validated_against_impl': res['n'],
             'samples': [{'case': c, 'observed': o} for c, o in flow.sample_evenly([(c, o) for c, o in zip(cases, obs) if o.get('ents')], 5)],
             'evaluations': len(cases),
@@ -200,6 +204,7 @@ def run(prop, tier, which):
                     'filler; every call is one event judged by TLC (Trace_Spans, clause family "%s"); non-trivial = the call returned at least one entity (cases are distinct by construction)' % which,
             'exhaustive': False,
             'generators': gens,
+            'mech_model_checks': mech_info,
             'case_sources': dict(srcs),
             'binding_selftest': 'passed',
             'inconclusive_timeouts': inconclusive,
